@@ -1,0 +1,208 @@
+//go:build verif
+// +build verif
+
+// Verification-only access to the unexported download queue (property C18 of /verif).
+// Thin wrappers around the real methods plus read access to the pools.  Nothing in here
+// is compiled into a normal build.
+
+package downloader
+
+import (
+	"sort"
+	"time"
+
+	"github.com/youchainhq/go-youchain/common"
+	"github.com/youchainhq/go-youchain/core/types"
+	"github.com/youchainhq/go-youchain/logging"
+)
+
+// VerifQueue wraps a real queue in full-sync mode (one component per block: the body).
+type VerifQueue struct {
+	q     *queue
+	peers map[string]*peerConnection
+}
+
+// VerifResult is one fetchResult handed out by Results.
+type VerifResult struct {
+	Header       *types.Header
+	Transactions types.Transactions
+	Pending      int
+}
+
+// VerifPools is a snapshot of the queue's bookkeeping, taken under the queue lock.
+type VerifPools struct {
+	TaskPool  []uint64            // numbers of the headers in blockTaskPool
+	TaskQueue []uint64            // numbers in blockTaskQueue (a multiset, ascending)
+	Pend      map[string][]uint64 // blockPendPool: peer -> requested header numbers in request order
+	Done      []uint64            // numbers of the headers whose hash is in blockDonePool (resolved through the known headers)
+	DoneCount int                 // len(blockDonePool)
+	Window    []int               // per allocated result slot from the front: Pending counter; trailing nil slots omitted, inner nil = -99
+	Offset    uint64              // resultOffset
+	Lacks     map[string][]uint64 // per peer: numbers of the known headers the peer is marked as lacking
+}
+
+// NewVerifQueue builds a queue whose result window has `window` slots and whose first expected block is origin+1.
+func NewVerifQueue(origin uint64, window int) *VerifQueue {
+	// newQueue sizes the window from the package variable blockCacheItems
+	saved := blockCacheItems
+	blockCacheItems = window
+	q := newQueue()
+	blockCacheItems = saved
+	q.Prepare(origin+1, FullSync)
+	return &VerifQueue{q: q, peers: map[string]*peerConnection{}}
+}
+
+func (v *VerifQueue) peer(id string) *peerConnection {
+	p, ok := v.peers[id]
+	if !ok {
+		p = newPeerConnection(id, nil, logging.New("peer", id))
+		v.peers[id] = p
+	}
+	return p
+}
+
+// Schedule is queue.Schedule; returns the number of inserted headers.
+func (v *VerifQueue) Schedule(headers []*types.Header, from uint64) int {
+	return len(v.q.Schedule(headers, from))
+}
+
+// ReserveBodies is queue.ReserveBodies for the stub peer `id`; returns the numbers of the reserved headers.
+func (v *VerifQueue) ReserveBodies(id string, count int) (nums []uint64, progress bool, err error) {
+	req, progress, err := v.q.ReserveBodies(v.peer(id), count)
+	if req != nil {
+		for _, h := range req.Headers {
+			nums = append(nums, h.Number.Uint64())
+		}
+	}
+	return nums, progress, err
+}
+
+// VerifErrClass names the error classes of a body delivery.
+func VerifErrClass(err error) string {
+	switch {
+	case err == nil:
+		return "ok"
+	case err == errNoFetchesPending:
+		return "nofetch"
+	case err == errStaleDelivery:
+		return "stale"
+	case err == errInvalidChain:
+		return "invalidChain"
+	case err == errInvalidBody:
+		return "invalidBody"
+	default:
+		return "partial"
+	}
+}
+
+// DeliverBodies is queue.DeliverBodies.
+func (v *VerifQueue) DeliverBodies(id string, txLists [][]*types.Transaction) (int, error) {
+	return v.q.DeliverBodies(id, txLists)
+}
+
+// CancelBodies cancels the request currently pending for peer id (false when there is none).
+func (v *VerifQueue) CancelBodies(id string) bool {
+	v.q.lock.Lock()
+	req := v.q.blockPendPool[id]
+	v.q.lock.Unlock()
+	if req == nil {
+		return false
+	}
+	v.q.CancelBodies(req)
+	return true
+}
+
+// ExpireBodies makes the request pending for peer id (if any) two hours old and runs the real expiry with a
+// one hour timeout, so exactly that request expires.
+func (v *VerifQueue) ExpireBodies(id string) map[string]int {
+	v.q.lock.Lock()
+	if req := v.q.blockPendPool[id]; req != nil {
+		req.Time = time.Now().Add(-2 * time.Hour)
+	}
+	v.q.lock.Unlock()
+	return v.q.ExpireBodies(time.Hour)
+}
+
+// Revoke is queue.Revoke.
+func (v *VerifQueue) Revoke(id string) { v.q.Revoke(id) }
+
+// Results is queue.Results(false).
+func (v *VerifQueue) Results() []VerifResult {
+	var out []VerifResult
+	for _, r := range v.q.Results(false) {
+		out = append(out, VerifResult{Header: r.Header, Transactions: r.Transactions, Pending: r.Pending})
+	}
+	return out
+}
+
+// Stats returns the cheap exported counters of the queue.
+func (v *VerifQueue) Stats() (pendingBlocks int, inFlight bool, idle bool, throttle bool) {
+	return v.q.PendingBlocks(), v.q.InFlightBlocks(), v.q.Idle(), v.q.ShouldThrottleBlocks()
+}
+
+// Pools reads the bookkeeping under the queue lock.  known maps header hashes to numbers for the done pool and
+// the lacking sets (which are keyed by hash only); hashes[i] must be known[i].Hash().
+func (v *VerifQueue) Pools(known []*types.Header, hashes []common.Hash) VerifPools {
+	q := v.q
+	q.lock.Lock()
+	defer q.lock.Unlock()
+	out := VerifPools{Pend: map[string][]uint64{}, Lacks: map[string][]uint64{}, Offset: q.resultOffset, DoneCount: len(q.blockDonePool)}
+	for _, h := range q.blockTaskPool {
+		out.TaskPool = append(out.TaskPool, h.Number.Uint64())
+	}
+	// the priority queue has no iterator: drain it and push the same items back with the same priorities
+	type it struct {
+		v interface{}
+		p int64
+	}
+	var items []it
+	for !q.blockTaskQueue.Empty() {
+		val, prio := q.blockTaskQueue.Pop()
+		items = append(items, it{val, prio})
+	}
+	for _, x := range items {
+		q.blockTaskQueue.Push(x.v, x.p)
+		out.TaskQueue = append(out.TaskQueue, x.v.(*types.Header).Number.Uint64())
+	}
+	for id, req := range q.blockPendPool {
+		nums := []uint64{}
+		for _, h := range req.Headers {
+			if h != nil {
+				nums = append(nums, h.Number.Uint64())
+			}
+		}
+		out.Pend[id] = nums
+	}
+	for i, h := range known {
+		hash := hashes[i]
+		if _, ok := q.blockDonePool[hash]; ok {
+			out.Done = append(out.Done, h.Number.Uint64())
+		}
+		for id, p := range v.peers {
+			if p.Lacks(hash) {
+				out.Lacks[id] = append(out.Lacks[id], h.Number.Uint64())
+			}
+		}
+	}
+	last := -1
+	for i, r := range q.resultCache {
+		if r != nil {
+			last = i
+		}
+	}
+	for i := 0; i <= last; i++ {
+		if r := q.resultCache[i]; r != nil {
+			out.Window = append(out.Window, r.Pending)
+		} else {
+			out.Window = append(out.Window, -99)
+		}
+	}
+	u := func(s []uint64) { sort.Slice(s, func(i, j int) bool { return s[i] < s[j] }) }
+	u(out.TaskPool)
+	u(out.TaskQueue)
+	u(out.Done)
+	for _, s := range out.Lacks {
+		u(s)
+	}
+	return out
+}
